@@ -30,28 +30,30 @@ import (
 	"verifharness/common"
 )
 
-func soakCRDT(secs int) {
-	s := newSoak("crdt")
-	ctx := context.Background()
+// crdtNode is a real crdt.Consensus over a libp2p host on loopback, go-ds-crdt over an
+// in-memory datastore and batching enabled; close() releases what buildCRDT created.
+type crdtNode struct {
+	cc    *crdt.Consensus
+	close func()
+}
+
+func buildCRDT(ctx context.Context, namespace string, queue int) (*crdtNode, error) {
 	// an Ed25519 identity: pubsub signs every broadcast, RSA signing under -race is very slow
 	priv, _, err := crypto.GenerateEd25519Key(crand.Reader)
 	if err != nil {
-		fmt.Println("# inconclusive crdt: cannot generate a key:", err)
-		s.finish()
-		return
+		return nil, fmt.Errorf("cannot generate a key: %v", err)
 	}
+	ctx, cancel := context.WithCancel(ctx)
 	h, err := libp2p.New(ctx, libp2p.Identity(priv), libp2p.ListenAddrStrings("/ip4/127.0.0.1/tcp/0"))
 	if err != nil {
-		fmt.Println("# inconclusive crdt: cannot create a libp2p host:", err)
-		s.finish()
-		return
+		cancel()
+		return nil, fmt.Errorf("cannot create a libp2p host: %v", err)
 	}
 	psub, err := pubsub.NewGossipSub(ctx, h, pubsub.WithMessageSigning(true), pubsub.WithStrictSignatureVerification(true))
 	if err != nil {
 		h.Close()
-		fmt.Println("# inconclusive crdt: cannot create pubsub:", err)
-		s.finish()
-		return
+		cancel()
+		return nil, fmt.Errorf("cannot create pubsub: %v", err)
 	}
 	idht, err := dual.New(ctx, h,
 		dual.DHTOption(dht.NamespacedValidator("pk", record.PublicKeyValidator{})),
@@ -60,26 +62,43 @@ func soakCRDT(secs int) {
 	)
 	if err != nil {
 		h.Close()
-		fmt.Println("# inconclusive crdt: cannot create dht:", err)
-		s.finish()
-		return
+		cancel()
+		return nil, fmt.Errorf("cannot create dht: %v", err)
 	}
 	rh := routedhost.Wrap(h, idht)
-	defer rh.Close()
-
+	store := inmem.New()
+	closeAll := func() {
+		idht.Close()
+		rh.Close()
+		store.Close()
+		cancel()
+	}
 	cfg := &crdt.Config{}
 	cfg.Default()
 	cfg.TrustAll = true
-	cfg.DatastoreNamespace = "c18"
+	cfg.DatastoreNamespace = namespace
 	cfg.Batching.MaxBatchSize = 40
 	cfg.Batching.MaxBatchAge = 30 * time.Millisecond
-	cfg.Batching.MaxQueueSize = 4000
-	cc, err := crdt.New(rh, idht, psub, cfg, inmem.New())
+	cfg.Batching.MaxQueueSize = queue
+	cc, err := crdt.New(rh, idht, psub, cfg, store)
 	if err != nil {
-		fmt.Println("# inconclusive crdt: cannot create the consensus component:", err)
+		closeAll()
+		return nil, fmt.Errorf("cannot create the consensus component: %v", err)
+	}
+	return &crdtNode{cc: cc, close: closeAll}, nil
+}
+
+func soakCRDT(secs int) {
+	s := newSoak("crdt")
+	ctx := context.Background()
+	node, err := buildCRDT(ctx, "c18", 4000)
+	if err != nil {
+		fmt.Println("# inconclusive crdt:", err)
 		s.finish()
 		return
 	}
+	defer node.close()
+	cc := node.cc
 	client, _ := newRPC()
 	cc.SetClient(client)
 	select {
